@@ -48,6 +48,10 @@ class HarnessError(Exception):
     pass
 
 
+class RoRefused(Exception):
+    """raised inside a handler (in a read-only session) when the library refused the call."""
+
+
 class FState:
     def __init__(self, path):
         self.path = path
@@ -100,6 +104,7 @@ class Run:
         self.sim_seconds = 0
         self.ts_floor = {}
         self.extra = {}           # per-profile scratch state
+        self.ro_mode = False
 
     # -------------------------------------------------------------------- files
     def fstate(self, path="a.nix"):
@@ -320,6 +325,8 @@ class Run:
         raise v
 
     def expect_ok(self, res, site, oracle="unexpected_error"):
+        if res[0] == "exc" and self.ro_mode:
+            raise RoRefused(site)
         if res[0] == "exc":
             e = res[1]
             self.violation(oracle, site, type(e).__name__, "%s: %s" % (type(e).__name__, str(e)[:200]))
